@@ -1,5 +1,6 @@
 (* C05 -- witnesses: (1) the text of a cached error can change after its error_update was sent (finding
-   C05/error-text-changes-after-announce); (2) without the update lock the stream and the cache diverge. *)
+   C05/error-text-changes-after-announce); (2) without the update lock the stream and the cache diverge;
+   (3) without each of the three shapes of handle_activate / broadcast_event the multi-thread clause fails. *)
 From Coq Require Import ZArith NArith Bool List Arith.
 Import ListNotations.
 Require Import FV.Base.Util FV.Base.F64 FV.Base.PyVal FV.C01.Model FV.Gen.C05 FV.C05.Model FV.C05.Lemmas.
@@ -7,7 +8,7 @@ Require Import FV.Base.Util FV.Base.F64 FV.Base.PyVal FV.C01.Model FV.Gen.C05 FV
 Definition wP : pcfg :=
   {| p_mod := 0; p_mname := [109%N]; p_name := [112%N]; p_export := Some [95%N; 112%N];
      p_dt := TFloat (fmk (-100) 0) (fmk 100 0) fzero fzero; p_omit := 0 |}.
-Definition wG : config := {| g_tab := err_table; g_params := [wP]; g_conns := [SAll] |}.
+Definition wG : config := {| g_tab := err_table; g_params := [wP]; g_conns := [SAll]; g_nmods := 1 |}.
 Definition wS : state :=
   activate_all wG {| s_cells := [{| c_val := PFloat fzero; c_err := None; c_ts := 0 |}]; s_heap := []; s_now := 8000; s_log := [] |}.
 Definition wcx : cxd := {| cx_text := []; cx_tname := []; cx_oid := 0 |}.
@@ -32,16 +33,17 @@ Proof.
   vm_compute. discriminate.
 Qed.
 
-(* two threads assign different values; with the body of announceUpdate not enclosed by the lock (locked = false)
+(* two threads assign different values; with the body of announceUpdate not enclosed by the lock (f_locked = false)
    thread 1 stores and sends while thread 0 is between building and sending its message *)
-Definition w_progs : list (list op) :=
-  [ [ {| o_p := 0; o_k := KAssign (PFloat (fmk 1 0)); o_dt := 1; o_cx := wcx |} ];
-    [ {| o_p := 0; o_k := KAssign (PFloat (fmk 2 0)); o_dt := 1; o_cx := wcx |} ] ].
+Definition w_progs : list (list job) :=
+  [ [ JOp {| o_p := 0; o_k := KAssign (PFloat (fmk 1 0)); o_dt := 1; o_cx := wcx |} ];
+    [ JOp {| o_p := 0; o_k := KAssign (PFloat (fmk 2 0)); o_dt := 1; o_cx := wcx |} ] ].
 Definition w_sched : list nat := [0; 1; 0; 0; 1; 1; 1; 0].
+Definition no_update_lock : flags := {| f_locked := false; f_reg_first := true; f_snap_locked := true; f_private := true |}.
 
 Theorem C05_refuted_without_update_lock :
   exists G s progs sched c m,
-    let r := crun G false (cinit s progs) sched in
+    let r := crun G no_update_lock (cinit s (subs0 G) progs) sched in
     cs_ok r = true /\ quiescent r = true /\
     nth_error (s_cells (cs_st r)) 0 = Some c /\ replay 0 (msgs_of 0 (cs_st r)) = Some m /\
     m_ts m <> c_ts c.
@@ -51,5 +53,80 @@ Proof.
 Qed.
 
 (* the same schedule is not executable when the lock is there: thread 1 is blocked at the acquire *)
-Example with_lock_blocked : cs_ok (crun wG true (cinit wS w_progs) w_sched) = false.
+Example with_lock_blocked : cs_ok (crun wG flags_ok (cinit wS (subs0 wG) w_progs) w_sched) = false.
+Proof. vm_compute. reflexivity. Qed.
+
+(* ------------------------------------------------------------------ activation racing with an update.
+   One module, one parameter; connection 0 is not activated when the history starts.  Thread 0 assigns a new value,
+   thread 1 runs handle_activate for connection 0 (whole node).  In each witness the run is complete (every thread
+   finished), connection 0 is registered for the whole node at the end, and the newest message it holds for the
+   parameter carries another timestamp than the cached entry: a lost update / a stale snapshot. *)
+Definition aG : config := {| g_tab := err_table; g_params := [wP]; g_conns := [SNone]; g_nmods := 1 |}.
+Definition aS : state :=
+  activate_all aG {| s_cells := [{| c_val := PFloat fzero; c_err := None; c_ts := 0 |}]; s_heap := []; s_now := 8000; s_log := [] |}.
+Definition a_progs : list (list job) :=
+  [ [ JOp {| o_p := 0; o_k := KAssign (PFloat (fmk 1 0)); o_dt := 1; o_cx := wcx |} ];
+    [ JConn 0 (AActivate SAll) ] ].
+
+Definition stale_at_end (G : config) (F : flags) (s : state) (progs : list (list job)) (sched : list nat) : Prop :=
+  exists c m,
+    let r := crun G F (cinit s (subs0 G) progs) sched in
+    cs_ok r = true /\ quiescent r = true /\ nth_error (cs_subs r) 0 = Some [SAll; SNone] /\
+    nth_error (s_cells (cs_st r)) 0 = Some c /\ replay 0 (msgs_of 0 (cs_st r)) = Some m /\
+    m_ts m <> c_ts c.
+
+(* (1) without "registration precedes the loop sending the initial values": the initial value is sent, then the
+   other thread's update finds nobody registered, then the connection is registered: the update is lost *)
+Definition reg_after_snapshot : flags := {| f_locked := true; f_reg_first := false; f_snap_locked := true; f_private := true |}.
+Definition a_sched_late_reg : list nat := [1; 1; 1; 0; 0; 0; 1].
+Theorem C05_refuted_registration_after_snapshot :
+  exists G s progs sched, stale_at_end G reg_after_snapshot s progs sched.
+Proof.
+  exists aG, aS, a_progs, a_sched_late_reg. unfold stale_at_end. eexists; eexists. cbv zeta.
+  repeat split; try (vm_compute; reflexivity). vm_compute. discriminate.
+Qed.
+
+(* (2) without "the initial values of a module are built and sent inside its updateLock": the initial value is built,
+   the other thread stores, announces and delivers the new value, then the older initial value is delivered *)
+Definition snapshot_outside_lock : flags := {| f_locked := true; f_reg_first := true; f_snap_locked := false; f_private := true |}.
+Definition a_sched_unlocked : list nat := [1; 1; 1; 0; 0; 0; 0; 1].
+Theorem C05_refuted_snapshot_outside_lock :
+  exists G s progs sched, stale_at_end G snapshot_outside_lock s progs sched.
+Proof.
+  exists aG, aS, a_progs, a_sched_unlocked. unfold stale_at_end. eexists; eexists. cbv zeta.
+  repeat split; try (vm_compute; reflexivity). vm_compute. discriminate.
+Qed.
+
+(* with the shapes present neither schedule is executable: in (1) the thread is at the registration, not at the lock;
+   in (2) the assigning thread is blocked at updateLock while the initial value is in hand *)
+Example with_facts_late_reg : cs_ok (crun aG flags_ok (cinit aS (subs0 aG) a_progs) a_sched_unlocked) = false.
+Proof. vm_compute. reflexivity. Qed.
+
+(* (3) without "broadcast_event iterates over a private copy": three activated connections; while the update is
+   handed to connection 0, connection 2 is removed; the set iterator of the updating thread raises ("Set changed
+   size during iteration"), connection 1 -- activated all the time -- never gets the update *)
+Definition lG : config := {| g_tab := err_table; g_params := [wP]; g_conns := [SAll; SAll; SAll]; g_nmods := 1 |}.
+Definition lS : state :=
+  activate_all lG {| s_cells := [{| c_val := PFloat fzero; c_err := None; c_ts := 0 |}]; s_heap := []; s_now := 8000; s_log := [] |}.
+Definition l_progs : list (list job) :=
+  [ [ JOp {| o_p := 0; o_k := KAssign (PFloat (fmk 1 0)); o_dt := 1; o_cx := wcx |} ];
+    [ JConn 2 AReset ] ].
+Definition live_listener_set : flags := {| f_locked := true; f_reg_first := true; f_snap_locked := true; f_private := false |}.
+Definition l_sched : list nat := [0; 0; 0; 1; 1; 0].
+Theorem C05_refuted_live_listener_set :
+  exists G s progs sched c m,
+    let r := crun G live_listener_set (cinit s (subs0 G) progs) sched in
+    cs_ok r = true /\ quiescent r = true /\ nth_error (cs_subs r) 1 = Some [SAll] /\
+    nth_error (s_cells (cs_st r)) 0 = Some c /\ replay 0 (msgs_of 1 (cs_st r)) = Some m /\
+    m_ts m <> c_ts c.
+Proof.
+  exists lG, lS, l_progs, l_sched. eexists; eexists. cbv zeta.
+  repeat split; try (vm_compute; reflexivity). vm_compute. discriminate.
+Qed.
+(* with the private copy the same schedule serves connection 1 (two more steps: the remaining send_reply calls) *)
+Example with_private_copy :
+  let r := crun lG flags_ok (cinit lS (subs0 lG) l_progs) (l_sched ++ [0; 0]) in
+  cs_ok r && quiescent r && Nat.eqb (length (msgs_of 1 (cs_st r))) 2 = true.
+Proof. vm_compute. reflexivity. Qed.
+Example with_facts_late_reg' : cs_ok (crun aG flags_ok (cinit aS (subs0 aG) a_progs) a_sched_late_reg) = false.
 Proof. vm_compute. reflexivity. Qed.
